@@ -4888,12 +4888,32 @@ impl<'a> Parser<'a> {
     }
 
     fn parse_optional_type_arguments(&mut self) -> Result<Option<TypeArguments>, JsError> {
-        if !self.check(&TokenKind::Lt) {
+        let start = self.current.span;
+        if self.check(&TokenKind::LtLt) {
+            // `<<`: the `<` of the list and the `<` of a generic function type: Array<<T>(x: T) => T>
+            self.previous = Token {
+                kind: TokenKind::Lt,
+                span: Span {
+                    start: start.start,
+                    end: start.start + 1,
+                    line: start.line,
+                    column: start.column,
+                },
+            };
+            self.current = Token {
+                kind: TokenKind::Lt,
+                span: Span {
+                    start: start.start + 1,
+                    end: start.end,
+                    line: start.line,
+                    column: start.column + 1,
+                },
+            };
+        } else if self.check(&TokenKind::Lt) {
+            self.advance();
+        } else {
             return Ok(None);
         }
-
-        let start = self.current.span;
-        self.advance();
 
         let mut params = vec![];
 
